@@ -507,6 +507,57 @@ func (m *maker) mutateFields(base txgen.Tx) (Input, bool) {
 	return Input{Bytes: txgen.SignRaw(raw, signers...), Kind: base.Kind, Tier: "field", Tags: tags}, true
 }
 
+// otherActor takes a well-formed applicable transaction and issues it from somebody else: every message field that
+// holds the first signer's address is rewritten to another account's address and the transaction is signed by that
+// account (so it passes the signature and signer checks and reaches the handler's "not yours" branches: a withdrawal
+// by a non-funder, a cancel by a non-proposer, an update by a non-owner ...).
+func (m *maker) otherActor(base txgen.Tx) (Input, bool) {
+	stx, err := parseSigned(base.Bytes)
+	if err != nil {
+		return Input{}, false
+	}
+	signers, ok := m.signersOf(stx)
+	if !ok || len(signers) == 0 {
+		return Input{}, false
+	}
+	msg, err := decodeObj(stx.Data)
+	if err != nil {
+		return Input{}, false
+	}
+	u := m.f.W.G.U
+	var other *sim.User
+	switch m.pick(3, "actor") {
+	case 0:
+		other = u.Users[m.pick(len(u.Users), "actor-user")]
+	case 1:
+		other = u.Vals[m.pick(len(u.Vals), "actor-val")].Stake
+	default:
+		other = u.Users[len(u.Users)-1-m.pick(2, "actor-last")]
+	}
+	if other == nil || other.Addr.String() == signers[0].Addr.String() {
+		return Input{}, false
+	}
+	var refs []fieldRef
+	collect("", msg, &refs)
+	n := 0
+	for _, r := range refs {
+		if sv, ok := r.old.(string); ok && r.class == "addr" && sv == signers[0].Addr.String() {
+			r.set(other.Addr.String())
+			n++
+		}
+	}
+	if n == 0 {
+		return Input{}, false
+	}
+	data, err := json.Marshal(msg)
+	if err != nil {
+		return Input{}, false
+	}
+	raw := action.RawTx{Type: stx.Type, Data: data, Fee: stx.Fee, Memo: m.memo()}
+	ns := append([]*sim.User{other}, signers[1:]...)
+	return Input{Bytes: txgen.SignRaw(raw, ns...), Kind: base.Kind, Tier: "actor", Tags: []string{"issued-by-another-account"}}, true
+}
+
 // mutateEnvelope keeps the message and makes fee / memo / signature list / type hostile.
 func (m *maker) mutateEnvelope(base txgen.Tx) (Input, bool) {
 	stx, err := parseSigned(base.Bytes)
@@ -1179,6 +1230,15 @@ func (m *maker) draw(g *hist.Gen) Input {
 				tags = []string{"plain"}
 			}
 			return Input{Bytes: tx.Bytes, Kind: tx.Kind, Tier: "gen", Tags: tags}
+		case k < 40:
+			kind := hist.FarmKinds[m.pick(len(hist.FarmKinds), "kind")]
+			base, err := m.f.Make(kind)
+			if err != nil {
+				continue
+			}
+			if in, ok := m.otherActor(base); ok {
+				return in
+			}
 		case k < 68:
 			kind := hist.FarmKinds[m.pick(len(hist.FarmKinds), "kind")]
 			base, err := m.f.Make(kind)
